@@ -231,3 +231,5 @@ func (e *Explorer) one(w work) []work {
 	}
 	return out
 }
+
+func (e ErrDiverged) Error() string { return "schedule/choice replay diverged: " + e.Msg }
